@@ -528,10 +528,27 @@ func (a *actor) do(st *Step, idx int, call, method, path string, hdr map[string]
 			}
 		}()
 	}
-	resp, err := a.client.Do(req)
+	client := a.client
+	if st.StallRead {
+		tp := &http.Transport{DisableCompression: true, DisableKeepAlives: true, ReadBufferSize: 4096,
+			DialContext: func(ctx context.Context, network, addr string) (net.Conn, error) {
+				c, err := (&net.Dialer{}).DialContext(ctx, network, addr)
+				if tc, ok := c.(*net.TCPConn); ok && err == nil {
+					tc.SetReadBuffer(128 << 10)
+				}
+				return c, err
+			}}
+		client = &http.Client{Transport: tp}
+	}
+	resp, err := client.Do(req)
 	var res callResult
 	if err != nil {
 		res.err = err
+	} else if st.StallRead {
+		a.h.record(Event{Actor: a.id, Proc: a.procName, Kind: "stalled", Call: call, Step: idx, Tag: st.Tag, Status: resp.StatusCode})
+		<-a.ctx.Done() // until the process is killed
+		resp.Body.Close()
+		res.status, res.headers, res.err = resp.StatusCode, resp.Header, a.ctx.Err()
 	} else {
 		b, rerr := io.ReadAll(resp.Body)
 		resp.Body.Close()
